@@ -1104,7 +1104,9 @@ Proof.
   intros u. induction c as [|x c IH]; intros acc H; simpl in H.
   - destruct acc; discriminate.
   - destruct (get_unit u (Z.abs x) =? 0) eqn:E0.
-    + destruct acc; [discriminate|]. destruct (IH _ H) as [l [Hl Ht]]. exists l. split; [right|]; auto.
+    + assert (K : exists l, In l c /\ u_true u l).
+      { destruct acc as [l0|]; [destruct (x =? l0); [|discriminate]|]; eapply IH; eauto. }
+      destruct K as [l [Hl Ht]]. exists l. split; [right|]; auto.
     + apply Z.eqb_neq in E0. destruct (get_unit u (Z.abs x) * x =? Z.abs x) eqn:E1.
       * apply Z.eqb_eq in E1. exists x. split; [left; reflexivity|split; auto].
       * destruct (IH _ H) as [l [Hl Ht]]. exists l. split; [right|]; auto.
@@ -1116,35 +1118,39 @@ Proof.
   intros u. induction c as [|x c IH]; intros acc l H; simpl in H.
   - destruct acc; inversion H; auto.
   - destruct (get_unit u (Z.abs x) =? 0) eqn:E0.
-    + apply Z.eqb_eq in E0. destruct acc; [discriminate|].
-      destruct (IH _ _ H) as [E|[Hl Hu]].
-      * inversion E; subst. right. split; [left; reflexivity|exact E0].
-      * right. split; [right|]; auto.
+    + apply Z.eqb_eq in E0. destruct acc as [l0|].
+      * destruct (x =? l0); [|discriminate].
+        destruct (IH _ _ H) as [E|[Hl Hu]]; auto. right. split; [right|]; auto.
+      * destruct (IH _ _ H) as [E|[Hl Hu]].
+        -- inversion E; subst. right. split; [left; reflexivity|exact E0].
+        -- right. split; [right|]; auto.
     + destruct (get_unit u (Z.abs x) * x =? Z.abs x); [discriminate|].
       destruct (IH _ _ H) as [E|[Hl Hu]]; auto. right. split; [right|]; auto.
 Qed.
 
-Lemma scan_many_spec : forall u c acc, NoDup c -> scan_clause u c acc = SMany ->
+(* SMany: two DIFFERENT unbound literals (no hypothesis on repetitions) *)
+Lemma scan_many_spec : forall u c acc, scan_clause u c acc = SMany ->
   (acc = None -> exists l1 l2, In l1 c /\ In l2 c /\ l1 <> l2 /\ u_unb u l1 /\ u_unb u l2) /\
-  (acc <> None -> exists l2, In l2 c /\ u_unb u l2).
+  (forall l0, acc = Some l0 -> exists l2, In l2 c /\ l2 <> l0 /\ u_unb u l2).
 Proof.
-  intros u. induction c as [|x c IH]; intros acc Hnd H; simpl in H.
+  intros u. induction c as [|x c IH]; intros acc H; simpl in H.
   - destruct acc; discriminate.
-  - inversion Hnd as [|? ? Hx Hnd']; subst.
-    destruct (get_unit u (Z.abs x) =? 0) eqn:E0.
+  - destruct (get_unit u (Z.abs x) =? 0) eqn:E0.
     + apply Z.eqb_eq in E0. destruct acc as [l0|].
-      * split; [discriminate|]. intros _. exists x. split; [left; reflexivity|exact E0].
-      * split; [|congruence]. intros _.
-        destruct (IH _ Hnd' H) as [_ K]. destruct (K ltac:(discriminate)) as [l2 [Hl2 Hu2]].
-        exists x, l2. repeat split; auto.
-        -- left; reflexivity.
-        -- right; exact Hl2.
-        -- intros ->. contradiction.
+      * split; [discriminate|]. intros l1 E. inversion E; subst l1.
+        destruct (x =? l0) eqn:Ex.
+        -- destruct (IH _ H) as [_ K]. destruct (K l0 eq_refl) as [l2 [A1 [A2 A3]]].
+           exists l2. split; [right|]; auto.
+        -- apply Z.eqb_neq in Ex. exists x. split; [left; reflexivity|]. split; [exact Ex|exact E0].
+      * split; [|discriminate]. intros _.
+        destruct (IH _ H) as [_ K]. destruct (K x eq_refl) as [l2 [A1 [A2 A3]]].
+        exists x, l2. split; [left; reflexivity|]. split; [right; exact A1|].
+        split; [congruence|]. split; [exact E0|exact A3].
     + destruct (get_unit u (Z.abs x) * x =? Z.abs x); [discriminate|].
-      destruct (IH _ Hnd' H) as [K1 K2]. split.
+      destruct (IH _ H) as [K1 K2]. split.
       * intros Ea. destruct (K1 Ea) as [l1 [l2 [A1 [A2 [A3 [A4 A5]]]]]].
         exists l1, l2. repeat split; auto; right; auto.
-      * intros Ea. destruct (K2 Ea) as [l2 [A1 A2]]. exists l2. split; [right|]; auto.
+      * intros l0 Ea. destruct (K2 l0 Ea) as [l2 [A1 [A2 A3]]]. exists l2. split; [right|]; auto.
 Qed.
 
 (* no clause is falsified or unit *)
@@ -1161,11 +1167,9 @@ Proof.
   eapply u_true_ext; eauto.
 Qed.
 
-Definition nice_clause (n : nat) (c : clause) : Prop := NoDup c /\ lits_in n c.
-
 Lemma pass_complete : forall nb mk i u t md mk' u' t' md',
   units_ok u ->
-  (forall d c, In (d, c) mk -> nice_clause (length u) c) ->
+  (forall d c, In (d, c) mk -> lits_in (length u) c) ->
   done_ok u mk ->
   pass nb i mk u t md = PCont mk' u' t' md' ->
   u_ext u u' /\ units_ok u' /\ length u' = length u /\ done_ok u' mk' /\
@@ -1176,7 +1180,7 @@ Proof.
   - inversion H; subst. refine (conj _ (conj _ (conj _ (conj _ (conj _ _))))); auto.
     + apply u_ext_refl.
     + intros _. split; [reflexivity|]. intros d c [].
-  - assert (Hnr : forall d0 c0, In (d0, c0) r -> nice_clause (length u) c0)
+  - assert (Hnr : forall d0 c0, In (d0, c0) r -> lits_in (length u) c0)
       by (intros d0 c0 Hin; apply (Hn d0 c0); right; exact Hin).
     (* the generic continuation *)
     assert (K : forall d0 u0 t0 md0,
@@ -1189,7 +1193,7 @@ Proof.
     { intros d0 u0 t0 md0 Ho0 Hl0 He0 Hd0 Hc0 E.
       destruct (pass nb (S i) r u0 t0 md0) as [tt|mk2 u2 t2 md2] eqn:Ep; simpl in E; [discriminate|].
       inversion E; subst mk' u' t' md'. clear E.
-      assert (Hnr0 : forall d1 c1, In (d1, c1) r -> nice_clause (length u0) c1)
+      assert (Hnr0 : forall d1 c1, In (d1, c1) r -> lits_in (length u0) c1)
         by (intros d1 c1 Hin; rewrite Hl0; eapply Hnr; eauto).
       destruct (IH _ _ _ _ _ _ _ _ Ho0 Hnr0 Hd0 Ep) as [A1 [A2 [A3 [A4 [A5 A6]]]]].
       refine (conj _ (conj _ (conj _ (conj _ (conj _ _))))); auto.
@@ -1209,7 +1213,7 @@ Proof.
       intros d1 c1 [Hin|Hin].
       * inversion Hin; subst. left. apply Hd. left; reflexivity.
       * eapply B2; eauto.
-    + destruct (Hn false c (or_introl eq_refl)) as [Hnd Hin].
+    + pose proof (Hn false c (or_introl eq_refl)) as Hin.
       assert (Hdr : done_ok u r) by (intros c0 Hc0; apply Hd; right; exact Hc0).
       destruct (scan_clause u c None) as [| |l|] eqn:Es.
       * (* SSat *)
@@ -1233,7 +1237,7 @@ Proof.
         refine (conj _ (conj _ (conj _ (conj _ (conj _ _))))); auto.
         intros Hm. rewrite (A5 eq_refl) in Hm. discriminate.
       * (* SMany *)
-        destruct (scan_many_spec u c None Hnd Es) as [Hs _]. specialize (Hs eq_refl).
+        destruct (scan_many_spec u c None Es) as [Hs _]. specialize (Hs eq_refl).
         destruct (K false u t md Ho eq_refl (u_ext_refl u) Hdr
                     (fun E => False_ind _ (Bool.diff_false_true E)) H)
           as [A1 [A2 [A3 [A4 [A5 A6]]]]].
@@ -1300,14 +1304,14 @@ Qed.
 (* --- the loop stops on a stable array --- *)
 Lemma up_loop_complete : forall nb fuel mk u t,
   units_ok u ->
-  (forall c, In c (map snd mk) -> nice_clause (length u) c) ->
+  (forall c, In c (map snd mk) -> lits_in (length u) c) ->
   done_ok u mk ->
   fst (up_loop fuel nb mk u t) = Some false ->
   exists u', u_ext u u' /\ units_ok u' /\
              forall c, In c (map snd mk) -> stable_clause u' c.
 Proof.
   intros nb. induction fuel as [|f IH]; intros mk u t Ho Hn Hd H; cbn [up_loop] in H; [discriminate|].
-  assert (Hn' : forall d c, In (d, c) mk -> nice_clause (length u) c).
+  assert (Hn' : forall d c, In (d, c) mk -> lits_in (length u) c).
   { intros d c Hin. apply Hn. apply (in_map snd) in Hin. exact Hin. }
   pose proof (pass_complete nb mk 0 u t false) as Hp.
   pose proof (pass_clauses nb mk 0 u t false) as Hc.
@@ -1418,16 +1422,26 @@ Proof.
   destruct (0 <? x) eqn:E; [apply Z.ltb_lt in E|apply Z.ltb_ge in E]; lia.
 Qed.
 
+Lemma is_taut_false_non_taut : forall n c, lits_in n c -> is_taut c = false -> non_taut c.
+Proof.
+  intros n c Hr H l Hl. apply (taut_scan_false c [] H l Hl).
+  eapply in_range_nonzero. apply Hr. exact Hl.
+Qed.
+
+(* every line with the RUP property is accepted: tautologies at once, the
+   others by propagation; repeated literals are harmless *)
 Theorem check_line_complete : forall nb clauses u t line,
   units_ok u ->
-  (forall c, In c clauses -> nice_clause (length u) c) ->
-  lits_in (length u) line -> non_taut line ->
+  cnf_in (length u) clauses ->
+  lits_in (length u) line ->
   rup clauses line ->
   fst (check_line nb clauses u t line) = Some true.
 Proof.
-  intros nb clauses u t line Ho Hn Hr Hnt Hrup.
+  intros nb clauses u t line Ho Hn Hr Hrup.
+  unfold check_line. destruct (is_taut line) eqn:Et; [reflexivity|].
+  pose proof (is_taut_false_non_taut _ _ Hr Et) as Hnt.
   pose proof (up_unsat_fuel nb clauses (neg_assign u line) t) as Hf.
-  unfold check_line. unfold up_unsat in *.
+  unfold up_unsat in *.
   destruct (fst (up_loop (S (length clauses)) nb (map (pair false) clauses) (neg_assign u line) t))
     as [[|]|] eqn:E; [reflexivity|exfalso|contradiction].
   pose proof (up_loop_complete nb (S (length clauses)) (map (pair false) clauses)
@@ -1437,7 +1451,7 @@ Proof.
   { intros c Hc. apply in_map_iff in Hc. destruct Hc as [x [Ex _]]. discriminate. }
   destruct (Hex Hd0 E) as [u' [H1 [H2 H3]]].
   - assert (Hw : wf_cnf clauses).
-    { intros c Hc l Hl. destruct (Hn c Hc) as [_ Hin]. eapply in_range_nonzero. apply Hin. exact Hl. }
+    { intros c Hc l Hl. eapply in_range_nonzero. apply (Hn c Hc). exact Hl. }
     apply (stable_no_conflict clauses (map Z.opp line) u' Hw H2); auto.
     + intros x Hx. apply in_map_iff in Hx. destruct Hx as [y [<- Hy]].
       pose proof (in_range_nonzero _ _ (Hr y Hy)). lia.
@@ -1447,19 +1461,19 @@ Qed.
 
 Theorem check_lines_complete : forall early nb u, units_ok u ->
   forall cert clauses t,
-  (forall c, In c clauses -> nice_clause (length u) c) ->
-  (forall c, In c cert -> nice_clause (length u) c /\ non_taut c) ->
+  cnf_in (length u) clauses ->
+  cnf_in (length u) cert ->
   rup_chain clauses cert ->
   valid (check_lines early nb clauses u t (map LClause cert)) = true.
 Proof.
   intros early nb u Ho. induction cert as [|c r IH]; intros clauses t Hn Hc Hch; [reflexivity|].
   cbn [map check_lines]. destruct Hch as [Hrup Hch].
-  destruct (Hc c (or_introl eq_refl)) as [[Hnd Hin] Hnt].
-  pose proof (check_line_complete nb clauses u t c Ho Hn Hin Hnt Hrup) as Hl.
+  pose proof (Hc c (or_introl eq_refl)) as Hin.
+  pose proof (check_line_complete nb clauses u t c Ho Hn Hin Hrup) as Hl.
   destruct (check_line nb clauses u t c) as [r0 t']. simpl in Hl. subst r0.
   destruct (early && is_nil c); [reflexivity|].
   apply IH; auto.
-  - intros x Hx. apply in_app_or in Hx. destruct Hx as [Hx|[<-|[]]]; auto. split; auto.
+  - intros x Hx. apply in_app_or in Hx. destruct Hx as [Hx|[<-|[]]]; auto.
   - intros x Hx. apply Hc. right; exact Hx.
 Qed.
 
@@ -1515,8 +1529,8 @@ Qed.
 
 Theorem Unsat_gen_complete : forall early pb cert,
   units_ok (punits pb) ->
-  (forall c, In c (Clauses pb) -> nice_clause (length (punits pb)) c) ->
-  (forall c, In c cert -> nice_clause (length (punits pb)) c /\ non_taut c) ->
+  cnf_in (length (punits pb)) (Clauses pb) ->
+  cnf_in (length (punits pb)) cert ->
   rup_chain (Clauses pb) cert ->
   fst (Unsat_gen early pb cert) = true.
 Proof.
@@ -1560,8 +1574,8 @@ Qed.
 
 Theorem check_cert_complete : forall early f u0 cert,
   units_ok u0 ->
-  (forall c, In c f -> nice_clause (length u0) c) ->
-  (forall c, In c cert -> nice_clause (length u0) c /\ non_taut c) ->
+  cnf_in (length u0) f ->
+  cnf_in (length u0) cert ->
   rup_chain f cert ->
   check_cert early f u0 cert = true.
 Proof.
@@ -1569,49 +1583,29 @@ Proof.
   apply Unsat_gen_complete; auto.
 Qed.
 
-(* the two hypotheses of the completeness theorem cannot be dropped *)
-Theorem check_cert_complete_refuted_taut :
-  exists (n : nat) (f : cnf) (cert : list clause),
-    (forall c, In c f -> nice_clause n c) /\ (forall c, In c cert -> nice_clause n c) /\
-    rup_chain f cert /\
-    check_cert_reader f (init_units n f) cert = false /\
-    check_cert_chan f (init_units n f) cert = false.
+(* The two witnesses that refuted completeness before the fixes of
+   explain/problem.go (repeated literal) and explain/check.go (tautological
+   line) have the RUP property and are now accepted. *)
+Lemma rup_witness_taut : rup_chain [[1; 2]] [[1; -1]].
+Proof. simpl. split; [|exact I]. left. exists 1. split; apply up_assumed; simpl; auto. Qed.
+
+Lemma rup_witness_dup : rup_chain [[1; 1]; [-1; 2]; [-1; -2]] [[]].
 Proof.
-  exists 2%nat, [[1; 2]], [[1; -1]]. split; [|split; [|split; [|split]]].
-  - intros c [<-|[]]. split.
-    + repeat constructor; simpl; intuition discriminate.
-    + intros l [<-|[<-|[]]]; unfold in_range; simpl; lia.
-  - intros c [<-|[]]. split.
-    + repeat constructor; simpl; intuition discriminate.
-    + intros l [<-|[<-|[]]]; unfold in_range; simpl; lia.
-  - simpl. split; [|exact I]. left. exists 1. split; apply up_assumed; simpl; auto.
-  - vm_compute. reflexivity.
-  - vm_compute. reflexivity.
+  simpl. split; [|exact I]. right. exists [-1; -2]. split; [simpl; auto|].
+  assert (H1 : up_lit [[1; 1]; [-1; 2]; [-1; -2]] [] 1).
+  { apply (up_unit _ _ [1; 1]); simpl; auto. intros l' [<-|[<-|[]]] Hne; congruence. }
+  intros l [<-|[<-|[]]]; simpl.
+  - exact H1.
+  - apply (up_unit _ _ [-1; 2]); simpl; auto.
+    intros l' [<-|[<-|[]]] Hne; [exact H1|congruence].
 Qed.
 
-Theorem check_cert_complete_refuted_dup :
-  exists (n : nat) (f : cnf) (cert : list clause),
-    cnf_in n f /\ (forall c, In c cert -> nice_clause n c /\ non_taut c) /\
-    rup_chain f cert /\
-    check_cert_reader f (init_units n f) cert = false /\
-    check_cert_chan f (init_units n f) cert = false.
-Proof.
-  exists 2%nat, [[1; 1]; [-1; 2]; [-1; -2]], [[]]. split; [|split; [|split; [|split]]].
-  - apply range_okb_spec. vm_compute. reflexivity.
-  - intros c [<-|[]]. split; [split|].
-    + constructor.
-    + intros l [].
-    + intros l [].
-  - simpl. split; [|exact I]. right. exists [-1; -2]. split; [simpl; auto|].
-    assert (H1 : up_lit [[1; 1]; [-1; 2]; [-1; -2]] [] 1).
-    { apply (up_unit _ _ [1; 1]); simpl; auto. intros l' [<-|[<-|[]]] Hne; congruence. }
-    intros l [<-|[<-|[]]]; simpl.
-    + exact H1.
-    + apply (up_unit _ _ [-1; 2]); simpl; auto.
-      intros l' [<-|[<-|[]]] Hne; [exact H1|congruence].
-  - vm_compute. reflexivity.
-  - vm_compute. reflexivity.
-Qed.
+Lemma former_witnesses_accepted :
+  check_cert_reader [[1; 2]] (init_units 2 [[1; 2]]) [[1; -1]] = true /\
+  check_cert_chan [[1; 2]] (init_units 2 [[1; 2]]) [[1; -1]] = true /\
+  check_cert_reader [[1; 1]; [-1; 2]; [-1; -2]] (init_units 2 [[1; 1]; [-1; 2]; [-1; -2]]) [[]] = true /\
+  check_cert_chan [[1; 1]; [-1; 2]; [-1; -2]] (init_units 2 [[1; 1]; [-1; 2]; [-1; -2]]) [[]] = true.
+Proof. vm_compute. repeat split. Qed.
 
 (* unsat_subset on the problem built by ParseCNF *)
 Lemma mk_problem_wf : forall n f, wf_cnf f -> pb_wf (mk_problem n f).
